@@ -3,7 +3,7 @@ import brokerlib as B
 import brokerfam as F
 
 LEVEL = "model_checking"
-RULE = '1-4 publishers sending numbered messages at each QoS to overlapping topics read by 1-3 subscribers with different granted QoS, windows 1..10, subscriber connections cut and resumed while messages are unacknowledged, plus the resume family (resend order); non-trivial = scenarios with >= 2 messages of one publisher reaching one subscriber'
+RULE = 'service: bursts larger than the command queue from one goroutine before the service is online (FIFO); broker: 1-4 publishers sending numbered messages at each QoS to overlapping topics read by 1-3 subscribers with different granted QoS, windows 1..10, subscriber connections cut and resumed while messages are unacknowledged, plus the resume family (resend order); non-trivial = scenarios with >= 2 messages of one publisher reaching one subscriber'
 
 
 def scripts_for(seed, tier):
@@ -14,6 +14,10 @@ def scripts_for(seed, tier):
 def check(run):
     scripts = scripts_for(run.seed, run.tier)
     nacc, rejected, events, final = B.check_family(run, "C15", scripts, "c15")
+    # service half: commands of one caller are carried out in the order issued, also when the command queue overflows (Service.tla)
+    import clientfam
+    sscripts = clientfam.service_order(run.seed, run.tier)
+    B.check_family(run, "C15", sscripts, "c15s", kind="service")
     import mc
     mc.broker_mc(run, "C15")
     run.add(distinct_nontrivial=len({B.lib.digest([s["steps"], s["config"]]) for s in scripts}),
